@@ -290,6 +290,12 @@ def run(chk):
                 if s is not None and s.get("k") == "BinaryOperator" and s.get("op") in ("||", "&&"):
                     return atoms(s["c"][0]) + atoms(s["c"][1])
                 return [s]
+            top = strip(i["cond"], casts=False)
+            # `isGlobal() && output == -1`: a restriction of one grid family, decided by C14-D15/D16, not a guard the siblings of other families must share
+            family_only = top is not None and top.get("k") == "BinaryOperator" and top.get("op") == "&&" and \
+                any(txt(a_).replace("this->", "") in ("isGlobal()", "isSequence()", "isFourier()", "isLocalPolynomial()", "isWavelet()") for a_ in atoms(top))
+            if family_only:
+                continue
             for a in atoms(i["cond"]):
                 t = txt(a)
                 used = [p for p in pnames if p in t.replace("(", " ").replace(")", " ").replace(".", " ").replace("!", " ").split()]
@@ -786,6 +792,17 @@ def run(chk):
             chk.ob("C14-D14.sized", f.key, "container sized by `%s` at line %d" % (txt(strip(arg))[:40], c.get("l", 0)), bool(ok), f.loc(c),
                    "" if ok else "no throwing `< 0` test of %s lies on every path to this use" % sorted(used), "count validated before it sizes a container")
     chk.floor("C14-D14.sized", nsz, 10, "containers sized by counts read from a custom rule file")
+
+    # ------------------------------------------------------------------ D15-D18 documented throws-clauses (fourth round)
+    from rules import c14more
+    n15 = c14more.family_rule(chk, db, "C14-D15.family", formula)
+    chk.floor("C14-D15.family", n15, 6, "update<Family>Grid overloads")
+    n16 = c14more.output_rule(chk, db, "C14-D16.output", formula)
+    chk.floor("C14-D16.output", n16, 4, "API calls that hand `output` to a Global routine")
+    n17 = c14more.rawlen_rule(chk, db, "C14-D17.rawlen")
+    chk.floor("C14-D17.rawlen", n17, 8, "array copies in raw-pointer make overloads")
+    n18 = c14more.nopoints_rule(chk, db, "C14-D18.nopoints")
+    chk.floor("C14-D18.nopoints", n18, 1, "vector overload of loadNeededValues")
 
     # ------------------------------------------------------------------ D11 nested-only machinery behind Global grids
     chk.rule("C14-D11.nested", "GridGlobal / DynamicConstructorDataGlobal routines that build point sets with generateNestedPoints outside an isNonNested() alternative are reachable from the API "
